@@ -1308,7 +1308,12 @@ func classifyCrash(stderr string) (kind, msg, loc string) {
 	}
 	kind, msg, loc = "exit", "os.Exit", "?"
 	if m := regexp.MustCompile(`^(\S+\.go):\d+: (.*)$`).FindStringSubmatch(last); m != nil {
-		loc, msg = relFile(m[1]), "os.Exit: "+normMsg(m[2])
+		// the text after the first ':' of a fatal message is usually the (input dependent) cause
+		head := m[2]
+		if i := strings.IndexByte(head, ':'); i > 0 {
+			head = head[:i]
+		}
+		loc, msg = relFile(m[1]), "os.Exit: "+normMsg(head)
 	} else if last != "" {
 		msg = "os.Exit: " + normMsg(last)
 	}
@@ -1364,10 +1369,6 @@ func (s *supervisor) confirmCrash(cl, idx, unit, sub int) {
 func main() {
 	if mc.IsWorker() {
 		mc.WorkerMain(handleJob)
-		return
-	}
-	if len(os.Args) > 1 && os.Args[1] == "bench" {
-		bench()
 		return
 	}
 	r := mc.Start("C08")
@@ -1588,6 +1589,10 @@ func main() {
 		if !ok {
 			continue
 		}
+		if strings.Contains(f.Msg, "cN-harness") || strings.Contains(f.Raw, "c08-harness") {
+			r.HarnessError("%s", f.Raw)
+			continue
+		}
 		in := s.input(f.Class, f.Idx)
 		u := units[f.Unit]
 		what := fmt.Sprintf("%s [%s] on %s (%d bytes): %s %s at %s", u.Name, u.Subs[f.Sub].Label, truncate(fmt.Sprintf("%q", in), 90), len(in), f.Kind, f.Msg, f.Loc)
@@ -1608,7 +1613,12 @@ func main() {
 		r.HarnessError("vacuous: only %d distinct outcome classes", r.DistinctCount())
 	}
 	for u := range units {
-		if s.evalsUnit[u].Load() == 0 {
+		dropped := false
+		for sub := range units[u].Subs {
+			dropped = dropped || s.disabled[[2]int{u, sub}]
+		}
+		// (an entry point whose variants were all dropped after hangs is reported as violations + caps)
+		if s.evalsUnit[u].Load() == 0 && !dropped {
 			r.HarnessError("vacuous: entry point %s was never called", units[u].Name)
 		}
 	}
@@ -1619,27 +1629,4 @@ func main() {
 	}
 	os.RemoveAll(tmp)
 	r.Finish()
-}
-
-func bench() {
-	if os.Getenv("BENCH_RLIMIT") != "" {
-		lim := syscall.Rlimit{Cur: 12 << 30, Max: 12 << 30}
-		fmt.Println(syscall.Setrlimit(syscall.RLIMIT_AS, &lim))
-	}
-	if d := os.Getenv("BENCH_CWD"); d != "" {
-		os.Chdir(d)
-	}
-	src := []byte("func main { println(1) }\n")
-	for k := 0; k < 3; k++ {
-		t := time.Now()
-		for i := 0; i < 10; i++ {
-			loader.LoadProgramFile(config.DefaultConfig(), "x.wa", src)
-		}
-		fmt.Println("loader x10", time.Since(t))
-	}
-	t := time.Now()
-	for i := 0; i < 1000; i++ {
-		typesCheck(false, src)
-	}
-	fmt.Println("types x1000", time.Since(t))
 }
